@@ -20,3 +20,5 @@ def run(ctx, rep):
     more.rule_snode_continue(mod, rep)
     from ..rules import more3
     more3.rule_snode_shape(mod, rep)
+    from ..rules import more5
+    more5.rule_inverse_fill(mod, rep)
